@@ -36,7 +36,7 @@ func TestMain(m *testing.M) {
 		"CLI sample: stdout lines are compared as JSON values with the reference outputs after a JSON round trip (NaN->null, infinite->max float), exit status zero iff the reference did not fail, stderr non-empty when it failed; output text formatting is not compared",
 		"all alternatives of a generated ?// bind the same variables: the embedded engine leaves the variables of alternatives that did not match uninitialised (they read dead call frames, gojq and fq alike), so a program that reads one has no defined reference result; the two hand-written seeds that do are listed as a finding",
 		"the left side of a generated update has no `a, b`: the embedded engine builds a self-containing array for `null | (.[0], .[:1]) |= [.]` that no Go code can print or compare",
-		"a reference run that exceeds the harness limits (8 s, 1.2 GiB heap, output nested deeper than 400) makes the pair inconclusive (counted, never a verdict)",
+		"a reference run that exceeds the harness limits (8 s, 500 MiB heap, output nested deeper than 400) makes the pair inconclusive (counted, never a verdict)",
 	)
 	harness.Main(m, "C07")
 }
